@@ -62,7 +62,7 @@ CHECKS = {
          "DESIGN.md section 2 C06"),
  "C08": ("model_checking",
          "explicit-state BFS over edit/evaluation histories on the real implementation; preds/succs/precedents vs reference call trees",
-         "Same histories as C02 (depth 3/4 over 10 roots). After every history, for every held element: preds() == cached elements "
+         "Same histories as C02 (depth 3/4 over 14 roots, cold and warm). After every history, for every held element: preds() == cached elements "
          "the reference evaluation calls directly or through uncached cells + those uncached cells; succs() is the inverse; "
          "precedents() contains every reference read by attribute path; key-carrying graph nodes == held elements + live "
          "ItemSpaces; acyclic; no node of a deleted object.",
@@ -70,7 +70,7 @@ CHECKS = {
          "DESIGN.md section 2 C08"),
  "C09": ("model_checking",
          "explicit-state BFS over edit/evaluation histories under every cached-flag assignment, differential oracle vs all-cached twin",
-         "For each of 10 roots, every assignment with <=2 uncached cells (thorough: all 2^n) x BFS over edit/eval histories incl. "
+         "For each of 14 roots, every assignment with <=2 uncached cells (thorough: all 2^n) x BFS over edit/eval histories incl. "
          "flag changes at any point (depth 2/3): the sequence of values / exception types of all evaluations and of the final "
          "probe-all equals that of the all-cached twin; uncached cells hold nothing, run on every call, accept unhashable arguments.",
          "Trusted: the all-cached twin (same implementation; C01/C02 check it absolutely). Histories assigning values to a cells that is "
@@ -120,8 +120,8 @@ CHECKS = {
          "DESIGN.md section 2 C04"),
  "C07": ("model_checking",
          "explicit-state BFS over instantiate / evaluate / input / discard / base-edit histories with a table of all handles",
-         "7 roots (parameter signatures (i), (i, j=0), (); formulas returning None, extra refs, another base, _self; child space; nested "
-         "parametrised child) x BFS depth 3/2 (thorough 4/3), histories not merged because every handle ever obtained is part of the "
+         "10 roots (parameter signatures (i), (i, j=0), (); formulas returning None, extra refs, another base, _self; child space; nested "
+         "parametrised child, also with the same parameter name; inherited and grand-child structures) x BFS depth 3/2 (thorough 4/3), histories not merged because every handle ever obtained is part of the "
          "state. Oracle: reference evaluator for values in instances, `is`-identity of instances for all argument spellings that bind "
          "equally, live == fresh-model-with-edits-only, old handles raise DeletedObjectError on every probe or are the current instance.",
          "Trusted: mxmc/refsem.py ItemSpace semantics; the reference `value` clause applies to edit-free histories, edits are judged by the "
